@@ -6,6 +6,7 @@
 import OidcModel.Spec.C05
 import OidcModel.Proofs.C14
 import OidcModel.Proofs.C07
+import OidcModel.Proofs.C05ShapeTok
 namespace C05
 open Go Gen Hand Flow
 
@@ -41,7 +42,7 @@ theorem legacyVerifyClient_ok {now s r c} (h : LegacyVerifyClient now s r = .ok 
         (c.auth = Const.AuthMethodNone ∨
           (c.auth ≠ Const.AuthMethodPrivateKeyJWT ∧ (c.auth = Const.AuthMethodPost → s.provider.postSupported = true) ∧
             s.provider.store.AuthorizeClientIDSecret r.Data.ClientID r.Data.ClientSecret = .ok ()))) := by
-  unfold LegacyVerifyClient AuthorizeClientIDSecret at h
+  rw [SpecTok.LegacyVerifyClient_eq] at h; unfold SpecTok.LegacyVerifyClient at h; simp only [SpecTok.AuthorizeClientIDSecret_eq] at h; unfold SpecTok.AuthorizeClientIDSecret at h
   simp only [Provider.Storage, Provider.AuthMethodPrivateKeyJWTSupported, Provider.AuthMethodPostSupported, OPClient.AuthMethod] at h
   repeat' (split at h <;> try (simp at h))
   all_goals first
@@ -67,7 +68,7 @@ theorem withClient_grant {now p g cc ha c} (h : withClient now p g cc ha = .ok c
 /-- Provider router, token exchange: secret-authenticated client -/
 theorem authorizeTokenExchangeClient_ok {now id sec p c} (h : AuthorizeTokenExchangeClient now id sec p = .ok c) :
     p.store.AuthorizeClientIDSecret id sec = .ok () ∧ p.store.GetClientByClientID id = .ok c := by
-  unfold AuthorizeTokenExchangeClient AuthorizeClientIDSecret at h
+  rw [SpecTok.AuthorizeTokenExchangeClient_eq] at h; unfold SpecTok.AuthorizeTokenExchangeClient at h; simp only [SpecTok.AuthorizeClientIDSecret_eq] at h; unfold SpecTok.AuthorizeClientIDSecret at h
   simp only [Provider.Storage] at h
   repeat' (split at h <;> try (simp at h))
   subst h
@@ -76,7 +77,7 @@ theorem authorizeTokenExchangeClient_ok {now id sec p c} (h : AuthorizeTokenExch
 /-- client_credentials: the storage authenticates, and the grant must be registered -/
 theorem authorizeClientCredentialsClient_ok {now rq st c} (h : AuthorizeClientCredentialsClient now rq st = .ok c) :
     st.ClientCredentials rq.ClientID rq.ClientSecret = .ok c ∧ Const.GrantTypeClientCredentials ∈ c.grants := by
-  unfold AuthorizeClientCredentialsClient at h
+  rw [SpecTok.AuthorizeClientCredentialsClient_eq] at h; unfold SpecTok.AuthorizeClientCredentialsClient at h
   repeat' (split at h <;> try (simp at h))
   subst h
   exact ⟨by assumption, (C04.validateGrantType_iff (now := now)).1 (by simp_all)⟩
